@@ -20,7 +20,7 @@ use std::{
 
 use rustdds::{
   policy::{Durability, History, Reliability},
-  DomainParticipant, Keyed, QosPolicyBuilder, StatusEvented, TopicKind,
+  DomainParticipant, Keyed, QosPolicyBuilder, RTPSEntity, StatusEvented, TopicKind,
 };
 use serde::{Deserialize, Serialize};
 use serde_json::{json, Value};
@@ -76,6 +76,9 @@ pub enum Delete {
   ReaderThenNewWriter,
   /// the writer is deleted; once the unmatch has been seen a second reader is created on the topic
   WriterThenNewReader,
+  /// the writer's participant goes silent without saying goodbye (every datagram it sends is dropped from now
+  /// on): after its lease (10 s) the reader's participant must drop it and the reader must see the unmatch
+  WriterParticipantSilenced,
 }
 
 #[derive(Serialize, Deserialize, Debug, Clone)]
@@ -238,6 +241,11 @@ pub fn scenarios(tier: &str) -> Vec<Scenario> {
         s.delete = d;
         v.push(s);
       }
+      if i < 3 {
+        let mut s = base(o, vec![late], true);
+        s.delete = Delete::WriterParticipantSilenced;
+        v.push(s);
+      }
     }
     // security enabled: every RTPS protection kind x topics of every metadata x data protection kind
     // x payload sizes (not a multiple of 4; fragmented) on three orders that differ in who comes last
@@ -287,7 +295,7 @@ pub fn scenarios(tier: &str) -> Vec<Scenario> {
     }
     let o = &os[0];
     let late = o.iter().position(|s| *s == Step::W).unwrap().max(o.iter().position(|s| *s == Step::R).unwrap());
-    for d in [Delete::Reader, Delete::Writer, Delete::ReaderParticipant, Delete::ReaderThenNewWriter, Delete::WriterThenNewReader] {
+    for d in [Delete::Reader, Delete::Writer, Delete::ReaderParticipant, Delete::ReaderThenNewWriter, Delete::WriterThenNewReader, Delete::WriterParticipantSilenced] {
       let mut s = base(o, vec![late], true);
       s.delete = d;
       v.push(s);
@@ -610,6 +618,32 @@ pub fn run_scenario(sc: &Scenario, domain: u16) -> Result<Option<(String, String
           )));
         }
       }
+    }
+    Delete::WriterParticipantSilenced => {
+      rustdds::verif::net::mute_participant(Some(dp1.as_ref().unwrap().guid()));
+      let s = Instant::now();
+      let mut c = 0;
+      let mut sink = vec![];
+      // lease 10 s (5 announcement periods), clean-up every 2 s: well within 45 s
+      while c > -1 && s.elapsed() < Duration::from_secs(45) {
+        c += r.matched_change();
+        r.take_all(&mut sink);
+        std::thread::sleep(Duration::from_millis(20));
+      }
+      rustdds::verif::net::mute_participant(None);
+      if c > -1 {
+        return Ok(Some((
+          "C07:unmatch-not-observed:WriterParticipantSilenced".into(),
+          "45 s after the writer's participant went silent (lease duration 10 s) the reader has seen no unmatch".into(),
+        )));
+      }
+      if s.elapsed() < Duration::from_secs(6) {
+        return Ok(Some((
+          "C07:dropped-within-lease".into(),
+          format!("the reader saw the unmatch {:?} after the writer's participant went silent, well inside its 10 s lease", s.elapsed()),
+        )));
+      }
+      drop(w);
     }
     Delete::Writer | Delete::WriterThenNewReader => {
       drop(w);
